@@ -814,4 +814,10 @@ def model_anchor(ctx):
     return res
 
 
-RULES = [model_anchor, c18_exact_name_first, c04_vertex_curvature, c01_wiring, dispatch, keys_and_wiring, vocab, parm_offset, mode_raises, glass]
+def c01_flat_conic(ctx):
+    """shared with C01: CONI written for a surface of zero curvature"""
+    from .C01 import flat_conic as _r
+    return _r(ctx)
+
+
+RULES = [c01_flat_conic, model_anchor, c18_exact_name_first, c04_vertex_curvature, c01_wiring, dispatch, keys_and_wiring, vocab, parm_offset, mode_raises, glass]
